@@ -111,6 +111,67 @@ def monitor(ctx, spec, out):
     c01.monitor(ctx, spec, out)
 
 
+def interleaved(ctx):
+    """two optimizers of one class on spaces of different dimension, searched in turns (A, B, A, B, ...), the last score(s) of every call
+    non-finite: state shared between instances (a module-level surrogate, class attributes) must not make a later call raise or lose steps"""
+    import contextlib, io, traceback
+    import gradient_free_optimizers as gfo
+    rng = ctx.sub_rng("c15-interleaved")
+    names = list(gen.SLOW) + (rng.sample([n for n in gen.ALL if n not in gen.SLOW], 6) if ctx.quick else [n for n in gen.ALL if n not in gen.SLOW])
+    for rd in range(1 if ctx.quick else 4):
+        for name in names:
+            kind = rng.choice([NAN, -INF, INF, NAN])
+            seed = rng.randrange(10 ** 6)
+            spA = {"a0": np.arange(rng.choice([7, 9, 12]))}
+            spB = {"b0": np.arange(rng.choice([4, 5])), "b1": np.arange(rng.choice([4, 6]))}
+            turns = [rng.choice([4, 5, 6]) for _ in range(rng.choice([4, 5, 6]))]
+            logs = {"A": [], "B": []}
+
+            def mk(tag, names_):
+                def f(para):
+                    st = logs[tag]
+                    k = st[-1]["k"]
+                    st[-1]["k"] = k + 1
+                    v = -float(sum((float(para[n]) - 2.0) ** 2 for n in names_))
+                    if k >= st[-1]["n"] - st[-1]["tail"]:
+                        v = kind
+                    st[-1]["scores"].append(v)
+                    return v
+                return f
+            fA, fB = mk("A", list(spA)), mk("B", list(spB))
+            case = dict(optimizer=name, kind=repr(kind), seed=seed, turns=turns, dims_A=[len(v) for v in spA.values()], dims_B=[len(v) for v in spB.values()])
+            ctx.monitor_runs += 1
+            ctx.monitor_nontrivial.add((name, "interleaved", seed))
+            try:
+                with contextlib.redirect_stdout(io.StringIO()), contextlib.redirect_stderr(io.StringIO()):
+                    cls = getattr(gfo, name)
+                    A = cls(spA, random_state=seed, initialize={"random": 2})
+                    B = cls(spB, random_state=seed + 1, initialize={"random": 3})
+                    for i, n in enumerate(turns):
+                        tag, o, f = ("A", A, fA) if i % 2 == 0 else ("B", B, fB)
+                        logs[tag].append(dict(k=0, n=n, tail=rng.choice([1, 1, 2]), scores=[]))
+                        o.search(f, n_iter=n, verbosity=False, memory=False)
+                        sc = logs[tag][-1]["scores"]
+                        if len(o.search_data) != sum(c["n"] for c in logs[tag]) or len(sc) != n:
+                            ctx.violation(dict(optimizer=name, kind="lost-steps", scenario="interleaved"), dict(case, turn=i),
+                                          "%s: turn %d (%s): %d rows after calls of %r steps" % (name, i, tag, len(o.search_data), [c["n"] for c in logs[tag]]))
+                            break
+                        bs = float(o.best_score)
+                        cand = [x for x in sc if not math.isnan(x)]
+                        if math.isnan(bs) or (cand and bs != max(cand)):
+                            ctx.violation(dict(optimizer=name, kind="wrong-best", scenario="interleaved"), dict(case, turn=i, scores=[repr(x) for x in sc]),
+                                          "%s: turn %d (%s): best_score=%r, scores %r" % (name, i, tag, bs, sc))
+                            break
+            except Exception as e:
+                allpos = None
+                tb = traceback.format_exc()[-1500:]
+                if "replacement" in tb or "exhaust" in tb.lower():
+                    ctx.blocked.append(dict(optimizer=name, reason="interleaved: space exhausted", exception=type(e).__name__))
+                    continue
+                ctx.violation(dict(optimizer=name, kind="raises", exception=type(e).__name__, scenario="interleaved"), dict(case, traceback=tb),
+                              "%s: interleaved searches of two instances with trailing %r scores raised %s: %s" % (name, kind, type(e).__name__, str(e)[:200]))
+
+
 def pre_build(ctx):
     core_units.pre_build_tracker(ctx)
 
@@ -120,7 +181,8 @@ def run(ctx):
     ctx.monitor_rule = ("per optimizer (all 22): scores of the first k steps replaced by NaN / +inf / -inf following masks (all-invalid "
                         "prefixes of every length up to k for each kind, random mixtures; thorough: all 4^4 masks): search() must not "
                         "raise, must produce n_iter rows, best_score must be the best non-NaN score, and every later point must "
-                        "still be a genuine point (C01 monitor); distinct by (optimizer, mask, seed)")
+                        "still be a genuine point (C01 monitor); plus two instances of one class on spaces of different dimension searched in turns with "
+                        "non-finite trailing scores (shared module-level state); distinct by (optimizer, mask, seed)")
     for spec in mask_specs(ctx):
         # scores by objective-call index: memory is off so call index == step index
         tab_scores = spec["table"]
@@ -131,6 +193,7 @@ def run(ctx):
         ctx.monitor_runs += 1
         ctx.monitor_nontrivial.add((spec["name"], tuple("x" if m is None else repr(m) for m in script), spec["seed"]))
         monitor(ctx, spec, out)
+    interleaved(ctx)
 
 
 def run_with_mask(spec, script):
